@@ -1,0 +1,532 @@
+//! Verification seam (only compiled with `--cfg kiki_verif`).
+//!
+//! `HashMap` and `HashSet` stand-ins whose *iteration order* is decided by an
+//! order oracle that a test harness installs for the current thread.
+//! Every way of walking the elements (`iter`, `keys`, `values`, `into_iter`,
+//! `Debug`, ...) asks the oracle which permutation of the elements to produce,
+//! so a harness can enumerate the iteration orders that `std`'s randomly seeded
+//! hash collections could exhibit.
+//!
+//! When no oracle is installed the wrappers use a genuine `RandomState`
+//! and do not permute anything, i.e. they behave exactly like the `std` types.
+
+use std::borrow::Borrow;
+use std::cell::RefCell;
+use std::collections::hash_map::{DefaultHasher, RandomState};
+use std::fmt;
+use std::hash::{BuildHasher, Hash, Hasher};
+
+/// One decision of the order oracle: how to permute the `n` elements
+/// of a collection that is about to be iterated.
+#[derive(Clone, Copy, Debug, PartialEq, Eq, Hash, PartialOrd, Ord)]
+pub enum Choice {
+    Identity,
+    /// The k-th permutation in lexicographic order (Lehmer code); `0` is the identity.
+    Lehmer(u64),
+    /// Swap the elements at positions `i` and `i + 1`.
+    SwapAdjacent(usize),
+    Reverse,
+    /// Rotate left by `r` positions.
+    Rotate(usize),
+}
+
+/// A choice point that was passed during a run.
+#[derive(Clone, Debug, PartialEq, Eq)]
+pub struct Point {
+    /// Type name of the collection that was iterated.
+    pub site: &'static str,
+    /// Number of elements (always at least 2; smaller collections are not choice points).
+    pub n: usize,
+    pub choice: Choice,
+}
+
+#[derive(Default)]
+pub struct Oracle {
+    pub schedule: Vec<Choice>,
+    pub trace: Vec<Point>,
+}
+
+thread_local! {
+    static ORACLE: RefCell<Option<Oracle>> = const { RefCell::new(None) };
+}
+
+/// Installs an oracle for the current thread.
+/// The i-th iteration over a collection with two or more elements
+/// is permuted by `schedule[i]` (`Identity` beyond the end of the schedule).
+pub fn install(schedule: Vec<Choice>) {
+    ORACLE.with(|o| {
+        *o.borrow_mut() = Some(Oracle {
+            schedule,
+            trace: vec![],
+        })
+    });
+}
+
+/// Removes the oracle of the current thread and returns it, with the trace of the choice points passed.
+pub fn uninstall() -> Option<Oracle> {
+    ORACLE.with(|o| o.borrow_mut().take())
+}
+
+fn is_installed() -> bool {
+    ORACLE.with(|o| o.borrow().is_some())
+}
+
+fn permute<T>(mut v: Vec<T>, choice: Choice) -> Vec<T> {
+    let n = v.len();
+    match choice {
+        Choice::Identity => v,
+        Choice::Lehmer(mut k) => {
+            let mut factorials = vec![1u64; n + 1];
+            for i in 1..=n {
+                factorials[i] = factorials[i - 1].saturating_mul(i as u64);
+            }
+            let mut out = Vec::with_capacity(n);
+            for i in (0..n).rev() {
+                let index = ((k / factorials[i]) as usize).min(v.len() - 1);
+                k %= factorials[i];
+                out.push(v.remove(index));
+            }
+            out
+        }
+        Choice::SwapAdjacent(i) => {
+            if i + 1 < n {
+                v.swap(i, i + 1);
+            }
+            v
+        }
+        Choice::Reverse => {
+            v.reverse();
+            v
+        }
+        Choice::Rotate(r) => {
+            if n > 0 {
+                v.rotate_left(r % n);
+            }
+            v
+        }
+    }
+}
+
+fn order<T>(site: &'static str, v: Vec<T>) -> Vec<T> {
+    ORACLE.with(|o| {
+        let mut o = o.borrow_mut();
+        match o.as_mut() {
+            None => v,
+            Some(oracle) => {
+                if v.len() < 2 {
+                    return v;
+                }
+                let choice = oracle
+                    .schedule
+                    .get(oracle.trace.len())
+                    .copied()
+                    .unwrap_or(Choice::Identity);
+                oracle.trace.push(Point {
+                    site,
+                    n: v.len(),
+                    choice,
+                });
+                permute(v, choice)
+            }
+        }
+    })
+}
+
+/// `RandomState` in production mode; a fixed hasher while an oracle is installed,
+/// so that the order the oracle permutes is itself reproducible.
+#[derive(Clone)]
+pub enum SeamState {
+    Random(RandomState),
+    Fixed,
+}
+
+impl Default for SeamState {
+    fn default() -> Self {
+        if is_installed() {
+            SeamState::Fixed
+        } else {
+            SeamState::Random(RandomState::new())
+        }
+    }
+}
+
+pub enum SeamHasher {
+    Random(<RandomState as BuildHasher>::Hasher),
+    Fixed(DefaultHasher),
+}
+
+impl Hasher for SeamHasher {
+    fn finish(&self) -> u64 {
+        match self {
+            SeamHasher::Random(h) => h.finish(),
+            SeamHasher::Fixed(h) => h.finish(),
+        }
+    }
+
+    fn write(&mut self, bytes: &[u8]) {
+        match self {
+            SeamHasher::Random(h) => h.write(bytes),
+            SeamHasher::Fixed(h) => h.write(bytes),
+        }
+    }
+}
+
+impl BuildHasher for SeamState {
+    type Hasher = SeamHasher;
+
+    fn build_hasher(&self) -> SeamHasher {
+        match self {
+            SeamState::Random(r) => SeamHasher::Random(r.build_hasher()),
+            SeamState::Fixed => SeamHasher::Fixed(DefaultHasher::new()),
+        }
+    }
+}
+
+type StdMap<K, V> = std::collections::HashMap<K, V, SeamState>;
+type StdSet<K> = std::collections::HashSet<K, SeamState>;
+
+#[derive(Clone)]
+pub struct HashMap<K, V> {
+    inner: StdMap<K, V>,
+}
+
+#[derive(Clone)]
+pub struct HashSet<K> {
+    inner: StdSet<K>,
+}
+
+impl<K, V> Default for HashMap<K, V> {
+    fn default() -> Self {
+        Self {
+            inner: StdMap::with_hasher(SeamState::default()),
+        }
+    }
+}
+
+impl<K> Default for HashSet<K> {
+    fn default() -> Self {
+        Self {
+            inner: StdSet::with_hasher(SeamState::default()),
+        }
+    }
+}
+
+impl<K, V> HashMap<K, V> {
+    pub fn new() -> Self {
+        Self::default()
+    }
+
+    pub fn with_capacity(capacity: usize) -> Self {
+        Self {
+            inner: StdMap::with_capacity_and_hasher(capacity, SeamState::default()),
+        }
+    }
+
+    pub fn len(&self) -> usize {
+        self.inner.len()
+    }
+
+    pub fn is_empty(&self) -> bool {
+        self.inner.is_empty()
+    }
+
+    pub fn clear(&mut self) {
+        self.inner.clear()
+    }
+
+    pub fn iter(&self) -> std::vec::IntoIter<(&K, &V)> {
+        order(std::any::type_name::<Self>(), self.inner.iter().collect()).into_iter()
+    }
+
+    pub fn iter_mut(&mut self) -> std::vec::IntoIter<(&K, &mut V)> {
+        order(
+            std::any::type_name::<Self>(),
+            self.inner.iter_mut().collect(),
+        )
+        .into_iter()
+    }
+
+    pub fn keys(&self) -> std::vec::IntoIter<&K> {
+        order(std::any::type_name::<Self>(), self.inner.keys().collect()).into_iter()
+    }
+
+    pub fn values(&self) -> std::vec::IntoIter<&V> {
+        order(std::any::type_name::<Self>(), self.inner.values().collect()).into_iter()
+    }
+
+    pub fn values_mut(&mut self) -> std::vec::IntoIter<&mut V> {
+        order(
+            std::any::type_name::<Self>(),
+            self.inner.values_mut().collect(),
+        )
+        .into_iter()
+    }
+
+    pub fn into_keys(self) -> std::vec::IntoIter<K> {
+        order(
+            std::any::type_name::<Self>(),
+            self.inner.into_keys().collect(),
+        )
+        .into_iter()
+    }
+
+    pub fn into_values(self) -> std::vec::IntoIter<V> {
+        order(
+            std::any::type_name::<Self>(),
+            self.inner.into_values().collect(),
+        )
+        .into_iter()
+    }
+}
+
+impl<K: Eq + Hash, V> HashMap<K, V> {
+    pub fn insert(&mut self, k: K, v: V) -> Option<V> {
+        self.inner.insert(k, v)
+    }
+
+    pub fn get<Q: ?Sized + Hash + Eq>(&self, k: &Q) -> Option<&V>
+    where
+        K: Borrow<Q>,
+    {
+        self.inner.get(k)
+    }
+
+    pub fn get_key_value<Q: ?Sized + Hash + Eq>(&self, k: &Q) -> Option<(&K, &V)>
+    where
+        K: Borrow<Q>,
+    {
+        self.inner.get_key_value(k)
+    }
+
+    pub fn get_mut<Q: ?Sized + Hash + Eq>(&mut self, k: &Q) -> Option<&mut V>
+    where
+        K: Borrow<Q>,
+    {
+        self.inner.get_mut(k)
+    }
+
+    pub fn contains_key<Q: ?Sized + Hash + Eq>(&self, k: &Q) -> bool
+    where
+        K: Borrow<Q>,
+    {
+        self.inner.contains_key(k)
+    }
+
+    pub fn remove<Q: ?Sized + Hash + Eq>(&mut self, k: &Q) -> Option<V>
+    where
+        K: Borrow<Q>,
+    {
+        self.inner.remove(k)
+    }
+
+    pub fn entry(&mut self, k: K) -> std::collections::hash_map::Entry<'_, K, V> {
+        self.inner.entry(k)
+    }
+}
+
+impl<K> HashSet<K> {
+    pub fn new() -> Self {
+        Self::default()
+    }
+
+    pub fn with_capacity(capacity: usize) -> Self {
+        Self {
+            inner: StdSet::with_capacity_and_hasher(capacity, SeamState::default()),
+        }
+    }
+
+    pub fn len(&self) -> usize {
+        self.inner.len()
+    }
+
+    pub fn is_empty(&self) -> bool {
+        self.inner.is_empty()
+    }
+
+    pub fn clear(&mut self) {
+        self.inner.clear()
+    }
+
+    pub fn iter(&self) -> std::vec::IntoIter<&K> {
+        order(std::any::type_name::<Self>(), self.inner.iter().collect()).into_iter()
+    }
+}
+
+impl<K: Eq + Hash> HashSet<K> {
+    pub fn insert(&mut self, k: K) -> bool {
+        self.inner.insert(k)
+    }
+
+    pub fn contains<Q: ?Sized + Hash + Eq>(&self, k: &Q) -> bool
+    where
+        K: Borrow<Q>,
+    {
+        self.inner.contains(k)
+    }
+
+    pub fn get<Q: ?Sized + Hash + Eq>(&self, k: &Q) -> Option<&K>
+    where
+        K: Borrow<Q>,
+    {
+        self.inner.get(k)
+    }
+
+    pub fn remove<Q: ?Sized + Hash + Eq>(&mut self, k: &Q) -> bool
+    where
+        K: Borrow<Q>,
+    {
+        self.inner.remove(k)
+    }
+
+    pub fn take<Q: ?Sized + Hash + Eq>(&mut self, k: &Q) -> Option<K>
+    where
+        K: Borrow<Q>,
+    {
+        self.inner.take(k)
+    }
+
+    pub fn is_subset(&self, other: &Self) -> bool {
+        self.inner.is_subset(&other.inner)
+    }
+
+    pub fn is_superset(&self, other: &Self) -> bool {
+        self.inner.is_superset(&other.inner)
+    }
+
+    pub fn is_disjoint(&self, other: &Self) -> bool {
+        self.inner.is_disjoint(&other.inner)
+    }
+}
+
+impl<K, V> IntoIterator for HashMap<K, V> {
+    type Item = (K, V);
+    type IntoIter = std::vec::IntoIter<(K, V)>;
+
+    fn into_iter(self) -> Self::IntoIter {
+        order(
+            std::any::type_name::<Self>(),
+            self.inner.into_iter().collect(),
+        )
+        .into_iter()
+    }
+}
+
+impl<'a, K, V> IntoIterator for &'a HashMap<K, V> {
+    type Item = (&'a K, &'a V);
+    type IntoIter = std::vec::IntoIter<(&'a K, &'a V)>;
+
+    fn into_iter(self) -> Self::IntoIter {
+        self.iter()
+    }
+}
+
+impl<'a, K, V> IntoIterator for &'a mut HashMap<K, V> {
+    type Item = (&'a K, &'a mut V);
+    type IntoIter = std::vec::IntoIter<(&'a K, &'a mut V)>;
+
+    fn into_iter(self) -> Self::IntoIter {
+        self.iter_mut()
+    }
+}
+
+impl<K> IntoIterator for HashSet<K> {
+    type Item = K;
+    type IntoIter = std::vec::IntoIter<K>;
+
+    fn into_iter(self) -> Self::IntoIter {
+        order(
+            std::any::type_name::<Self>(),
+            self.inner.into_iter().collect(),
+        )
+        .into_iter()
+    }
+}
+
+impl<'a, K> IntoIterator for &'a HashSet<K> {
+    type Item = &'a K;
+    type IntoIter = std::vec::IntoIter<&'a K>;
+
+    fn into_iter(self) -> Self::IntoIter {
+        self.iter()
+    }
+}
+
+impl<K: Eq + Hash, V> FromIterator<(K, V)> for HashMap<K, V> {
+    fn from_iter<I: IntoIterator<Item = (K, V)>>(iter: I) -> Self {
+        let mut out = Self::new();
+        out.extend(iter);
+        out
+    }
+}
+
+impl<K: Eq + Hash> FromIterator<K> for HashSet<K> {
+    fn from_iter<I: IntoIterator<Item = K>>(iter: I) -> Self {
+        let mut out = Self::new();
+        out.extend(iter);
+        out
+    }
+}
+
+impl<K: Eq + Hash, V> Extend<(K, V)> for HashMap<K, V> {
+    fn extend<I: IntoIterator<Item = (K, V)>>(&mut self, iter: I) {
+        for (k, v) in iter {
+            self.inner.insert(k, v);
+        }
+    }
+}
+
+impl<K: Eq + Hash> Extend<K> for HashSet<K> {
+    fn extend<I: IntoIterator<Item = K>>(&mut self, iter: I) {
+        for k in iter {
+            self.inner.insert(k);
+        }
+    }
+}
+
+impl<K: Eq + Hash, V, const N: usize> From<[(K, V); N]> for HashMap<K, V> {
+    fn from(array: [(K, V); N]) -> Self {
+        array.into_iter().collect()
+    }
+}
+
+impl<K: Eq + Hash, const N: usize> From<[K; N]> for HashSet<K> {
+    fn from(array: [K; N]) -> Self {
+        array.into_iter().collect()
+    }
+}
+
+impl<K: Eq + Hash, V: PartialEq> PartialEq for HashMap<K, V> {
+    fn eq(&self, other: &Self) -> bool {
+        self.inner == other.inner
+    }
+}
+
+impl<K: Eq + Hash, V: Eq> Eq for HashMap<K, V> {}
+
+impl<K: Eq + Hash> PartialEq for HashSet<K> {
+    fn eq(&self, other: &Self) -> bool {
+        self.inner == other.inner
+    }
+}
+
+impl<K: Eq + Hash> Eq for HashSet<K> {}
+
+impl<K: Eq + Hash + Borrow<Q>, Q: ?Sized + Eq + Hash, V> std::ops::Index<&Q> for HashMap<K, V> {
+    type Output = V;
+
+    fn index(&self, key: &Q) -> &V {
+        self.inner.get(key).expect("no entry found for key")
+    }
+}
+
+impl<K: fmt::Debug, V: fmt::Debug> fmt::Debug for HashMap<K, V> {
+    fn fmt(&self, f: &mut fmt::Formatter<'_>) -> fmt::Result {
+        f.debug_map().entries(self.iter()).finish()
+    }
+}
+
+impl<K: fmt::Debug> fmt::Debug for HashSet<K> {
+    fn fmt(&self, f: &mut fmt::Formatter<'_>) -> fmt::Result {
+        f.debug_set().entries(self.iter()).finish()
+    }
+}
